@@ -156,3 +156,74 @@ class C05MoreModels:
 
 
 from .values import ListObj as PM_ListObj  # noqa: E402
+
+
+# ---- a CacheEntry as a value (element of the list a `get_all_entries` generator yields)
+from .values import RecV as PM_RecV, TRec as PM_TRec  # noqa: E402
+
+
+class TEntryRec(PM_TRec):
+    """Record (inputs, outputs, jacobian) of embedded dictionaries; a ``CacheEntry`` instance (a concrete-shape record of
+    dictionaries) is embedded field by field."""
+
+    def embed(self, st, v):
+        if isinstance(v, PM_RecV) and set(self.fields) <= set(v.vals):
+            return self.dt.mk(*[self.fields[f].embed(st, v.vals[f]) for f in self.fields])
+        return super().embed(st, v)
+
+
+def _keep_open_model(self, ex, fi, args, kwargs, lineno):
+    if fi.qualname == CMOD + ".HDF5FileSingleton.keep_open":
+        from .values import BuiltinV
+
+        ex.assumed.add("HDF5FileSingleton.keep_open: a context manager keeping the file handle open; no effect on the content of the file (protocol not verified)")
+        return BuiltinV("nullcontext")
+    return NotImplemented
+
+
+C05MoreModels.call_repo_model = _keep_open_model
+
+
+# ---- the file-handle protocol of keep_open (opt-in: `c05more_handle_protocol = True` on the contract under verification)
+# ghosts hc_keep (HDF5FileSingleton.__keep_open) and hc_open (``__file is not None``).  ``keep_open`` is
+#     self.__keep_open = True; yield; self.__keep_open = False; self.__close()      with   __close: assert self.__file is not None
+# What a file operation does to the handle is the ASSUMED clause `assumed:file-handle` of the storage contracts (contracts/c05_more.py).
+def _keep_open_model2(self, ex, fi, args, kwargs, lineno):
+    if fi.qualname == CMOD + ".HDF5FileSingleton.keep_open":
+        from .values import BuiltinV
+
+        if getattr(ex.contract, "c05more_handle_protocol", False):
+            return BuiltinV("c05more.keep_open")
+        ex.assumed.add("HDF5FileSingleton.keep_open: a context manager keeping the file handle open; no effect on the content of the file (protocol not verified)")
+        return BuiltinV("nullcontext")
+    return NotImplemented
+
+
+def _enter_context(self, ex, v, node):
+    from .values import BuiltinV
+
+    if isinstance(v, BuiltinV) and v.name == "c05more.keep_open":
+        ex.st.ghost_set("hc_keep", z3.BoolVal(True))
+        ex.st.ghost.setdefault("c05more_keep", []).append(node)
+        return None
+    return NotImplemented
+
+
+def _exit_context(self, ex, node, exc):
+    st = ex.st
+    stack = st.ghost.get("c05more_keep")
+    if not stack or stack[-1] is not node:
+        return NotImplemented
+    stack.pop()
+    if exc is not None:
+        return None  # (a generator-based context manager does not run the code after its yield when the body raised)
+    st.ghost_set("hc_keep", z3.BoolVal(False))
+    if not st.decide(st.ghost_get("hc_open", z3.BoolSort())):
+        raise _raise("AssertionError", getattr(node, "lineno", 0))  # __close(): assert self.__file is not None
+    st.ghost_set("hc_open", z3.BoolVal(False))
+    return None
+
+
+C05MoreModels.call_repo_model = _keep_open_model2
+C05MoreModels.enter_context = _enter_context
+C05MoreModels.exit_context = _exit_context
